@@ -87,7 +87,9 @@ def _fields(cls, prims, depth=0):
         elif f.default is None:
             dflt = ['none']
         elif isinstance(f.default, bool):
-            dflt = ['bool', f.default]
+            # a bool default on an integer wire type is that integer (Python: False == 0)
+            tname = md['type'].__name__
+            dflt = ['bool', f.default] if tname == 'boolean' else ['nat', int(f.default)]
         elif isinstance(f.default, int) and f.default >= 0:
             dflt = ['nat', int(f.default)]
         else:
